@@ -238,7 +238,8 @@ fn instances(rng: &mut Rng) -> Vec<(&'static str, Bytes, SC, bool)> {
         let n = 1 + rng.below(4);
         let mut messages = vec![];
         for _ in 0..n {
-            let len = match rng.below(4) { 0 => 1, 1 => 2, _ => 1 + rng.below(300) as usize };
+            // (an EMPTY payload next to non-empty ones: the two sides must agree on whether such a batch is a valid request)
+            let len = match rng.below(6) { 0 => 1, 1 => 2, 2 => 0, _ => 1 + rng.below(300) as usize };
             let payload: Vec<u8> = (0..len).map(|_| rng.next() as u8).collect();
             // id 0 means "server-assigned" (the decoder replaces it by a fresh uuid): ids are given here so that equality is meaningful
             messages.push(Message::new(Some(rng.next() as u128 * 31 + 1), Bytes::from(payload), headers(rng)));
